@@ -298,6 +298,10 @@ func (c *Ctx) summarizeCall(ws *writeSummary, fn *ssa.Function, call *ssa.CallCo
 		}
 	}
 	// call through a function value
+	if c.shortType(call.Value.Type()) == "context.CancelFunc" {
+		ws.all(famCtxDone)
+		return
+	}
 	ws.top = true
 }
 
